@@ -124,6 +124,7 @@ Lemma inv_set_tasks t0 v s : Inv t0 s -> Inv t0 (set_tasks v s). Proof. exact (f
 Lemma inv_set_nextg t0 v s : Inv t0 s -> Inv t0 (set_nextg v s). Proof. exact (fun H => H). Qed.
 Lemma inv_set_sched t0 v s : Inv t0 s -> Inv t0 (set_sched v s). Proof. exact (fun H => H). Qed.
 Lemma inv_set_ext t0 v s : Inv t0 s -> Inv t0 (set_ext v s). Proof. exact (fun H => H). Qed.
+Lemma inv_set_mid t0 v s : Inv t0 s -> Inv t0 (set_mid v s). Proof. exact (fun H => H). Qed.
 Lemma inv_set_bad t0 s : Inv t0 s -> Inv t0 (set_bad s). Proof. exact (fun H => H). Qed.
 Lemma inv_set_executing t0 v s : Inv t0 s -> Inv t0 (set_executing v s). Proof. exact (fun H => H). Qed.
 
@@ -311,8 +312,8 @@ Proof.
 Qed.
 
 Lemma dispatch_good t0 s k h b : Inv t0 s -> batch s = S b -> heap s = k :: h ->
-  Inv t0 (dispatch false P ticker k (set_heap h (set_batch b s))) /\
-  mono s (dispatch false P ticker k (set_heap h (set_batch b s))).
+  Inv t0 (dispatch false false P ticker k (set_heap h (set_batch b s))) /\
+  mono s (dispatch false false P ticker k (set_heap h (set_batch b s))).
 Proof.
   intros H Eb Eh. pose proof (inv_pop t0 s k h b H Eb Eh) as H0.
   unfold dispatch. set (s0 := logt (TDisp k) (set_heap h (set_batch b s))) in *.
@@ -320,14 +321,14 @@ Proof.
   assert (forall s', Inv t0 s' /\ mono s0 s' -> Inv t0 s' /\ mono s s') as W
     by (intros s' (A & B); split; [exact A | eauto using mono_trans]).
   destruct k; try (apply W; apply run_handlers_good; exact H0).
-  destruct ((0 <? batch s0) || (0 <? qlen s0) || negb (running s0)).
+  destruct ((0 <? batch s0) || (0 <? qlen s0) || (negb false && negb (running s0))).
   - auto.
   - destruct (tasks s0).
     + apply W. apply idle_wait_good. exact H0.
     + apply W. apply timed_wait_good. exact H0.
 Qed.
 
-Lemma floop_good t0 n : forall s, Inv t0 s -> Inv t0 (floop false P ticker n s) /\ mono s (floop false P ticker n s).
+Lemma floop_good t0 n : forall s, Inv t0 s -> Inv t0 (floop false false P ticker n s) /\ mono s (floop false false P ticker n s).
 Proof.
   induction n as [|n IH]; intros s H; simpl.
   - destruct (batch s =? 0); split; auto using mono_refl. red; auto.
@@ -345,7 +346,7 @@ Proof.
   rewrite Eh in *. simpl in *. rewrite app_nil_r. auto.
 Qed.
 
-Lemma flush_good : good (flush false P ticker).
+Lemma flush_good : good (flush false false P ticker).
 Proof.
   intros t0 s H. unfold flush. destruct (batch s =? 0) eqn:E.
   - apply Nat.eqb_eq in E. pose proof (inv_load t0 s H E) as H1.
@@ -391,7 +392,7 @@ Proof.
     destruct (IH _ H1) as (H2 & M2). split; [exact H2 | eauto using mono_trans].
 Qed.
 
-Lemma tick_good : good (tick false P ticker).
+Lemma tick_good : good (tick false false P ticker).
 Proof.
   intros t0 s H. unfold tick.
   assert (Inv t0 (logt TTick s)) as H0 by (apply inv_logt; simpl; auto).
@@ -402,9 +403,31 @@ Proof.
   { destruct (sched s0); inversion Es; subst; split; auto; red; auto. }
   destruct (proc_gids_good t0 (order e (map gid_of (tasks s0'))) s0' H0') as (H1 & M1).
   set (s1 := proc_gids ticker (order e (map gid_of (tasks s0'))) s0') in *.
-  assert (Inv t0 (if running s1 then fire KGE s1 else s1) /\ mono s1 (if running s1 then fire KGE s1 else s1)) as (H2 & M2).
-  { destruct (running s1); split; auto; try (red; auto). apply inv_fire; congruence || assumption. }
-  set (s2 := if running s1 then fire KGE s1 else s1) in *.
+  set (gef := fun s1 : st =>
+         let '(m, s1') := match mid s1 with [] => (None, s1) | m :: r => (m, set_mid r s1) end in
+         let s1'' := match m with
+                     | None => s1'
+                     | Some c => let '(s', raised) := req_stop ticker c s1' in t2_raise c raised s'
+                     end in
+         fire KGE s1'').
+  assert (Inv t0 (gef s1) /\ mono s1 (gef s1)) as (Hg & Mg).
+  { unfold gef.
+    destruct (match mid s1 with [] => (None, s1) | m :: r => (m, set_mid r s1) end) as (m, s1') eqn:Em.
+    assert (Inv t0 s1' /\ running s1' = running s1) as (H1' & R1').
+    { destruct (mid s1); inversion Em; subst; split; auto. }
+    destruct m as [c|].
+    - destruct (req_stop_good t0 c s1' H1') as (Ha & Ma & _).
+      destruct (req_stop ticker c s1') as (s', raised). cbn [fst] in *.
+      destruct (t2_raise_good t0 c raised s' Ha) as (Hb & Rb).
+      split; [apply inv_fire; congruence || exact Hb|].
+      red; intros R. change (running (t2_raise c raised s') = false). rewrite Rb. apply Ma. rewrite R1'. exact R.
+    - split; [apply inv_fire; congruence || exact H1'|]. red; intros R. change (running s1' = false). rewrite R1'. exact R. }
+  assert (Inv t0 (if running s1 then gef s1 else s1) /\ mono s1 (if running s1 then gef s1 else s1)) as (H2 & M2).
+  { destruct (running s1); split; auto; red; auto. }
+  pose (s2 := if running s1 then gef s1 else s1).
+  change (Inv t0 (if 0 <? qlen s2 then flush false false P ticker s2 else s2) /\
+          mono s (if 0 <? qlen s2 then flush false false P ticker s2 else s2)).
+  fold s2 in H2, M2.
   assert (mono s s2) as M by eauto using mono_trans.
   destruct (0 <? qlen s2).
   - destruct (flush_good t0 s2 H2) as (H3 & M3). split; [exact H3 | eauto using mono_trans].
@@ -413,11 +436,11 @@ Qed.
 
 End Layers.
 
-Lemma tickd_good P d : good (tickd false P d).
+Lemma tickd_good P d : good (tickd false false P d).
 Proof. induction d; simpl; [exact good_set_bad | apply tick_good; assumption]. Qed.
 
 (* ---- the loops of run() *)
-Lemma main_loop_spec P d t0 fuel : forall s s', Inv t0 s -> main_loop false P d fuel s = Some s' ->
+Lemma main_loop_spec P d t0 fuel : forall s s', Inv t0 s -> main_loop false false P d fuel s = Some s' ->
   Inv t0 s' /\ running s' = false /\ qlen s' = 0.
 Proof.
   induction fuel as [|f IH]; intros s s' H E; simpl in E; [discriminate|].
@@ -427,12 +450,12 @@ Proof.
     apply Nat.ltb_ge in Q. split; [exact H|]. split; [exact R | lia].
 Qed.
 
-Lemma drain_spec P d t0 fuel : forall s s', Inv t0 s -> running s = false -> drain false P d fuel s = Some s' ->
+Lemma drain_spec P d t0 fuel : forall s s', Inv t0 s -> running s = false -> drain false false P d fuel s = Some s' ->
   Inv t0 s' /\ running s' = false /\ qlen s' = 0.
 Proof.
   induction fuel as [|f IH]; intros s s' H R E; simpl in E; [discriminate|].
   destruct (0 <? qlen s) eqn:C.
-  - destruct (flush_good P (tickd false P d) (tickd_good P d) t0 s H) as (H1 & M1).
+  - destruct (flush_good P (tickd false false P d) (tickd_good P d) t0 s H) as (H1 & M1).
     eapply IH; [exact H1 | apply M1; exact R | exact E].
   - inversion E; subst. apply Nat.ltb_ge in C. split; [exact H|]. split; [exact R | lia].
 Qed.
@@ -447,7 +470,7 @@ Qed.
 (* everything the property says about one run(), from one use of the invariant.  The count of `stopped` is
    exact: 1, except when a second thread's stop was pre-empted before its fire(stopped) and is still parked when
    run() returns (pend s1 = Some (true, _)) -- then `stopped` has not even been queued: 0 *)
-Theorem run_spec : forall P d fuel s0 s1 out, idle s0 -> run false P d fuel s0 = Some (s1, out) ->
+Theorem run_spec : forall P d fuel s0 s1 out, idle s0 -> run false false P d fuel s0 = Some (s1, out) ->
   exists delta, trace s1 = trace s0 ++ delta /\
     firedK delta = dispK delta /\
     cnt KStarted (firedK delta) = 1 /\
@@ -458,14 +481,14 @@ Proof.
   intros P d fuel s0 s1 out Hi E. unfold run in E.
   pose proof (inv_start (trace s0) s0 Hi eq_refl) as H1.
   set (sa := fire KStarted (set_executing true (set_xcode None (set_running true s0)))) in *.
-  destruct (main_loop false P d fuel sa) as [s2|] eqn:E2; [|discriminate].
+  destruct (main_loop false false P d fuel sa) as [s2|] eqn:E2; [|discriminate].
   destruct (main_loop_spec P d _ _ _ _ H1 E2) as (H2 & R2 & Q2).
   pose proof (tickd_good P d) as G.
   destruct (G _ _ H2) as (H3a & M3a). destruct (G _ _ H3a) as (H3b & M3b).
   destruct (G _ _ H3b) as (H3c & M3c). destruct (G _ _ H3c) as (H3 & M3d).
-  set (s3 := tickd false P d (tickd false P d (tickd false P d (tickd false P d s2)))) in *.
+  set (s3 := tickd false false P d (tickd false false P d (tickd false false P d (tickd false false P d s2)))) in *.
   assert (running s3 = false) as R3 by (apply M3d, M3c, M3b, M3a; exact R2).
-  destruct (drain false P d fuel s3) as [s4|] eqn:E4; [|discriminate].
+  destruct (drain false false P d fuel s3) as [s4|] eqn:E4; [|discriminate].
   destruct (drain_spec P d _ _ _ _ H3 R3 E4) as (H4 & R4 & Q4).
   destruct (bad s4) eqn:B4; [discriminate|]. inversion E; subst. clear E.
   destruct H4 as (dl & Ht & Hb & Hf & Hs & Hr). rewrite R4 in Hr. destruct Hr as (Hst & c & r & Hq & Hx).
@@ -479,7 +502,7 @@ Proof.
 Qed.
 
 (* ---- the statements of Props/C08.v *)
-Lemma started_once : forall P d fuel s0 s1 out, idle s0 -> run false P d fuel s0 = Some (s1, out) ->
+Lemma started_once : forall P d fuel s0 s1 out, idle s0 -> run false false P d fuel s0 = Some (s1, out) ->
   exists delta, trace s1 = trace s0 ++ delta /\ cnt KStarted (dispK delta) = 1.
 Proof.
   intros P d fuel s0 s1 out Hi E. destruct (run_spec P d fuel s0 s1 out Hi E) as (dl & Ht & Hf & Hs & Hst & Hq & Hid).
@@ -487,7 +510,7 @@ Proof.
 Qed.
 
 (* partial: exactly the complement of the open finding C08-early-return-race *)
-Lemma stopped_once_partial : forall P d fuel s0 s1 out, idle s0 -> run false P d fuel s0 = Some (s1, out) ->
+Lemma stopped_once_partial : forall P d fuel s0 s1 out, idle s0 -> run false false P d fuel s0 = Some (s1, out) ->
   is_early (pend s1) = false ->
   exists delta, trace s1 = trace s0 ++ delta /\ cnt KStopped (dispK delta) = 1.
 Proof.
@@ -496,7 +519,7 @@ Proof.
 Qed.
 
 (* never more than once, whatever the schedule *)
-Lemma stopped_at_most_once : forall P d fuel s0 s1 out, idle s0 -> run false P d fuel s0 = Some (s1, out) ->
+Lemma stopped_at_most_once : forall P d fuel s0 s1 out, idle s0 -> run false false P d fuel s0 = Some (s1, out) ->
   exists delta, trace s1 = trace s0 ++ delta /\ cnt KStopped (dispK delta) <= 1.
 Proof.
   intros P d fuel s0 s1 out Hi E. destruct (run_spec P d fuel s0 s1 out Hi E) as (dl & Ht & Hf & Hs & Hst & Hq & Hid).
@@ -507,7 +530,7 @@ Qed.
    fire(stopped) while the loop is in its timed idle wait (a generator task is pending): run() raises
    SystemExit(5) and `stopped` has not been dispatched (it has not even been queued) *)
 Lemma stopped_before_return_refuted : exists P d fuel s0 s1 out delta,
-  idle s0 /\ run false P d fuel s0 = Some (s1, out) /\
+  idle s0 /\ run false false P d fuel s0 = Some (s1, out) /\
   trace s1 = trace s0 ++ delta /\ cnt KStopped (dispK delta) = 0 /\ out = Some 5%Z.
 Proof.
   exists (prog_of [(KStarted, [BGen [([], RYield); ([], RYield); ([], RYield)]])]), 3, 50,
@@ -519,7 +542,7 @@ Proof.
   vm_compute. split; reflexivity.
 Qed.
 
-Lemma drained : forall P d fuel s0 s1 out, idle s0 -> run false P d fuel s0 = Some (s1, out) ->
+Lemma drained : forall P d fuel s0 s1 out, idle s0 -> run false false P d fuel s0 = Some (s1, out) ->
   fifo s1 = [] /\ heap s1 = [] /\ batch s1 = 0 /\
   exists delta, trace s1 = trace s0 ++ delta /\ dispK delta = firedK delta.
 Proof.
@@ -527,7 +550,7 @@ Proof.
   destruct Hid as (_ & _ & F & Hh & B & _). repeat split; auto. exists dl. auto.
 Qed.
 
-Lemma exit_code : forall P d fuel s0 s1 out, idle s0 -> run false P d fuel s0 = Some (s1, out) ->
+Lemma exit_code : forall P d fuel s0 s1 out, idle s0 -> run false false P d fuel s0 = Some (s1, out) ->
   exists delta r, trace s1 = trace s0 ++ delta /\ reqs delta = out :: r.
 Proof.
   intros P d fuel s0 s1 out Hi E. destruct (run_spec P d fuel s0 s1 out Hi E) as (dl & Ht & Hf & Hs & Hst & (r & Hq) & Hid).
@@ -539,7 +562,7 @@ Proof. intros tk c s H. unfold stop. rewrite H. reflexivity. Qed.
 
 (* at rest again when run() returns; idle (all theorems apply to the next run) unless a pre-empted stopping
    thread is still parked -- its remainder (finish_late) runs outside run() *)
-Lemma rerun : forall P d fuel s0 s1 out, idle s0 -> run false P d fuel s0 = Some (s1, out) ->
+Lemma rerun : forall P d fuel s0 s1 out, idle s0 -> run false false P d fuel s0 = Some (s1, out) ->
   at_rest s1 /\ (pend s1 = None -> idle s1).
 Proof.
   intros P d fuel s0 s1 out Hi E. destruct (run_spec P d fuel s0 s1 out Hi E) as (dl & Ht & Hf & Hs & Hst & Hq & Hid).
@@ -549,7 +572,7 @@ Qed.
 (* ---- the order `_running = False; fire(stopped); _exit_code = code` is refuted: a second thread calls
    stop(3) while the loop idles and is pre-empted right after the wake-up; run() returns normally *)
 Lemma exit_code_legacy_refuted : exists P d fuel s0 s1 delta r c,
-  idle s0 /\ run true P d fuel s0 = Some (s1, None) /\
+  idle s0 /\ run true false P d fuel s0 = Some (s1, None) /\
   trace s1 = trace s0 ++ delta /\ reqs delta = Some c :: r.
 Proof.
   exists (prog_of []), 3, 50, (init [] [XStop PLate (Some 3%Z)]).
@@ -562,5 +585,34 @@ Qed.
 
 (* the same schedule with the order of the code: the code reaches the caller *)
 Lemma exit_code_late_example :
-  option_map snd (run false (prog_of []) 3 50 (init [] [XStop PLate (Some 3%Z)])) = Some (Some 3%Z).
+  option_map snd (run false false (prog_of []) 3 50 (init [] [XStop PLate (Some 3%Z)])) = Some (Some 3%Z).
 Proof. vm_compute. reflexivity. Qed.
+
+(* ---- the `or not self._running` clause of the dispatcher's wait decision: a generate_events dispatched while
+   the manager is not running never waits (nobody would wake it: tick() fires no further generate_events and a
+   stop() on a stopped manager fires nothing) *)
+Lemma ge_not_running_never_waits : forall lg P tk s, running s = false ->
+  dispatch lg false P tk KGE s = logt (TDisp KGE) s.
+Proof.
+  intros lg P tk s R. unfold dispatch.
+  assert (running (logt (TDisp KGE) s) = false) as R' by exact R.
+  rewrite R'. simpl. rewrite !orb_true_r. reflexivity.
+Qed.
+
+(* a second thread's whole stop() lands in tick() between `if self._running` and fire(generate_events): the batch
+   is [started; stopped; generate_events], generate_events comes last with an empty queue.  With the clause run()
+   returns (started, stopped, generate_events dispatched once each); without it the loop enters the unbounded
+   wait on a stopped manager ([idle_wait] finds nobody who could wake it: bad) and run does not return *)
+Lemma ge_clause_example :
+  option_map (fun r => dispK (trace (fst r))) (run false false (prog_of []) 3 50 (set_mid [Some None] (init [] [])))
+  = Some [KStarted; KStopped; KGE].
+Proof. vm_compute. reflexivity. Qed.
+
+Lemma ge_clause_dropped_refuted : exists P d s0,
+  idle s0 /\ run false true P d 50 s0 = None /\ run false true P d 400 s0 = None /\
+  run false false P d 50 s0 <> None.
+Proof.
+  exists (prog_of []), 3, (set_mid [Some None] (init [] [])).
+  split; [repeat split|]. split; [vm_compute; reflexivity|]. split; [vm_compute; reflexivity|].
+  vm_compute. discriminate.
+Qed.
